@@ -77,6 +77,8 @@ def texts_k2(per_pattern=2, glued="hazards"):
             out.append(a + " " + b)
     if glued == "all":
         gl = toks
+    elif glued == "core":
+        gl = tuple(dict.fromkeys(HAZARD_CORE))
     else:
         gl = tuple(t for t in toks if t in set(HAZARDS))
     for a in gl:
